@@ -18,7 +18,7 @@ use super::{
 };
 use winnow::{
     ModalResult as WResult,
-    ascii::{digit1, newline, space0},
+    ascii::{digit1, newline, space0, space1},
     combinator::{alt, delimited, opt, separated},
     error::{ContextError, ErrMode},
     prelude::*,
@@ -135,19 +135,22 @@ fn guesses_header(i: &mut &str) -> WResult<()> {
 }
 
 pub fn parse_declare_point(i: &mut &str) -> WResult<DeclarePoint> {
-    ("point", ws, parse_label)
+    // At least one blank after the keyword: `point1.x = 3` is about the label `point1`.
+    ("point", space1, parse_label)
         .map(|(_, _, label)| DeclarePoint { label })
         .parse_next(i)
 }
 
 pub fn parse_declare_circle(i: &mut &str) -> WResult<DeclareCircle> {
-    ("circle", ws, parse_label)
+    // At least one blank after the keyword: `circle1.x = 3` is about the label `circle1`.
+    ("circle", space1, parse_label)
         .map(|(_, _, label)| DeclareCircle { label })
         .parse_next(i)
 }
 
 pub fn parse_declare_arc(i: &mut &str) -> WResult<DeclareArc> {
-    ("arc", ws, parse_label)
+    // At least one blank after the keyword: `arc1.x = 3` is about the label `arc1`.
+    ("arc", space1, parse_label)
         .map(|(_, _, label)| DeclareArc { label })
         .parse_next(i)
 }
